@@ -1154,37 +1154,77 @@ pub fn run_h2_client(env: &ScnEnv, scn: &Scenario, cfg: &RunCfg) -> Result<Vec<R
     Ok(obs)
 }
 
-/// A connection that holds the per-(cluster, source IP) slot of the `iplimit` cluster: one completed request
-/// on a kept-alive HTTP/1.1 (or HTTP/2) connection that stays open until dropped.
-pub enum Holder { H1(TcpStream), H2(H2Conn<TlsStream>) }
+/// A connection that holds the per-(cluster, source IP) slot of the `iplimit` cluster for as long as it lives.
+/// sozu closes idle connections within a second or two here, so the holder keeps its connection busy: one
+/// request every 300 ms (HTTP/1.1 keep-alive requests, or new HTTP/2 streams) until it is dropped.
+pub struct Holder {
+    stop: Arc<AtomicBool>,
+    thread: Option<JoinHandle<()>>,
+}
+
+impl Drop for Holder {
+    fn drop(&mut self) {
+        self.stop.store(true, Ordering::SeqCst);
+        if let Some(t) = self.thread.take() { let _ = t.join(); }
+    }
+}
 
 pub fn hold_ip_slot(env: &ScnEnv, scn: &Scenario, idx: usize) -> Result<Holder, String> {
     let path = format!("/s{}/iplimit/r{idx}", scn.id);
+    let stop = Arc::new(AtomicBool::new(false));
+    let stop2 = stop.clone();
     if scn.front == "h2" {
         let mut c = h2_tls_client(env.front, "localhost", Duration::from_secs(10))?;
         c.client_preface(&[]);
-        let block = request_block(&mut c.hp, "GET", "https", "localhost", &path, &[]);
-        c.send(&Frame::headers(1, block, true, true));
-        let until = Instant::now() + Duration::from_secs(10);
-        let mut st = None;
-        while Instant::now() < until {
-            let Some(f) = c.read_frame(Duration::from_millis(50)) else { if c.eof { break; } continue; };
-            if f.ty == SETTINGS && f.flags & FLAG_ACK == 0 { c.send(&Frame::settings_ack()); }
-            if f.ty == HEADERS && f.sid == 1 {
-                st = c.hp.decode(&f.payload).ok().and_then(|h| h.iter().find(|(k, _)| k == b":status").map(|(_, v)| String::from_utf8_lossy(v).to_string()));
+        let mut one = move |c: &mut H2Conn<TlsStream>, sid: u32| -> Option<String> {
+            let block = request_block(&mut c.hp, "GET", "https", "localhost", &path, &[]);
+            c.send(&Frame::headers(sid, block, true, true));
+            let until = Instant::now() + Duration::from_secs(10);
+            let mut st = None;
+            while Instant::now() < until {
+                let Some(f) = c.read_frame(Duration::from_millis(50)) else { if c.eof { break; } continue; };
+                if f.ty == SETTINGS && f.flags & FLAG_ACK == 0 { c.send(&Frame::settings_ack()); }
+                if f.ty == HEADERS {
+                    let h = c.hp.decode(&f.payload).ok();
+                    if f.sid == sid { st = h.and_then(|h| h.iter().find(|(k, _)| k == b":status").map(|(_, v)| String::from_utf8_lossy(v).to_string())); }
+                }
+                if f.sid == sid && f.end_stream() { break; }
             }
-            if f.sid == 1 && f.end_stream() { break; }
-        }
+            st
+        };
+        let st = one(&mut c, 1);
         if st.as_deref() != Some("200") { return Err(format!("ip-slot holder got {st:?}")); }
-        Ok(Holder::H2(c))
+        let thread = std::thread::spawn(move || {
+            let mut sid = 3;
+            while !stop2.load(Ordering::SeqCst) {
+                std::thread::sleep(Duration::from_millis(300));
+                if stop2.load(Ordering::SeqCst) { break; }
+                if one(&mut c, sid).is_none() { break; }
+                sid += 2;
+            }
+            set_linger0(&c.s.sock);
+        });
+        Ok(Holder { stop, thread: Some(thread) })
     } else {
-        let mut s = TcpStream::connect_timeout(&env.front, Duration::from_secs(10)).map_err(|e| e.to_string())?;
-        s.write_all(format!("GET {path} HTTP/1.1\r\nHost: localhost\r\n\r\n").as_bytes()).map_err(|e| e.to_string())?;
-        let mut rd = H1Reader { s: s.try_clone().map_err(|e| e.to_string())?, buf: Vec::new(), eof: None };
-        let mut o = ReqObs { idx, t_sent: Some(Instant::now()), ..Default::default() };
-        rd.read_response(&mut o, Instant::now() + Duration::from_secs(10), &Log::default());
-        if o.status != Some(200) || !o.complete { return Err(format!("ip-slot holder got {:?}", o.status)); }
-        Ok(Holder::H1(s))
+        let s = TcpStream::connect_timeout(&env.front, Duration::from_secs(10)).map_err(|e| e.to_string())?;
+        let mut rd = H1Reader { s, buf: Vec::new(), eof: None };
+        let mut one = move |rd: &mut H1Reader| -> Option<u16> {
+            rd.s.write_all(format!("GET {path} HTTP/1.1\r\nHost: localhost\r\n\r\n").as_bytes()).ok()?;
+            let mut o = ReqObs { idx, t_sent: Some(Instant::now()), ..Default::default() };
+            rd.read_response(&mut o, Instant::now() + Duration::from_secs(10), &Log::default());
+            if o.complete { o.status } else { None }
+        };
+        let st = one(&mut rd);
+        if st != Some(200) { return Err(format!("ip-slot holder got {st:?}")); }
+        let thread = std::thread::spawn(move || {
+            while !stop2.load(Ordering::SeqCst) {
+                std::thread::sleep(Duration::from_millis(300));
+                if stop2.load(Ordering::SeqCst) { break; }
+                if one(&mut rd) != Some(200) { break; }
+            }
+            set_linger0(&rd.s);
+        });
+        Ok(Holder { stop, thread: Some(thread) })
     }
 }
 
